@@ -69,6 +69,7 @@ STRUCT = [
     [("a", "C", [("E", ("list", []))]), ("b", "C", []), ("c", "C", [("W", ("list", [("dec", "1."), ("int", "+2"), ("dec", "-.5")]))])],
     [("A", "Cmd", [("P", ("bare", "007x")), ("Q", ("bare", "1.50abc")), ("R", ("bare", "http://h.org/p"))])],
     [("A", "Cmd", [("P", ("q", "\"x\"")), ("Q", ("q", "ab\"")), ("R", ("q", "l1\nl2"))])],
+    [("A", "Cmd", [("P", ("q", "l1\nl2\n")), ("Q", ("int", "1"))]), ("B", "Cmd", [("P", ("list", [("q", "x\ny"), ("int", "2")]))])],
 ]
 
 
